@@ -152,7 +152,8 @@ struct ACfg {
 static int g_nres = NRES;
 static bool g_gating32 = false;  // scanner x {disableDefaultEntityResolution, loadExternalDTD, loadSchema}; validation never, doSchema on, no resolver, SAX2
 static bool g_resolver96 = false;  // scanner x disableDefaultEntityResolution x the 12 (API, resolver) settings; validation auto, everything else permissive, file: URL base
-static uint64_t ncfg() { return g_gating32 ? 32 : g_resolver96 ? 96 : 2ull * 2 * 3 * 2 * 2 * 4 * 2 * 2 * g_nres; }
+static bool g_gating192 = false;  // like "gating" with standard-uri-conformant off and the plain-path document base (the two most significant digits fixed at 0)
+static uint64_t ncfg() { return g_gating32 ? 32 : g_resolver96 ? 96 : g_gating192 ? 192 : 2ull * 2 * 3 * 2 * 2 * 4 * 2 * 2 * g_nres; }
 static ACfg cfg_at(uint64_t i) {
     ACfg c;
     if (g_gating32) {
@@ -674,6 +675,7 @@ int main(int argc, char** argv) {
     g_strict = a.num("strict", 0) != 0;
     std::string cfgset = a.str("cfgset", "full");
     if (cfgset == "gating") g_nres = 1;  // none@SAX2 only: scanner x validation x the gating switches x uri/base (768)
+    if (cfgset == "gating192") { g_nres = 1; g_gating192 = true; }  // scanner x validation x {disableDefaultEntityResolution, loadExternalDTD, loadSchema, doSchema}
     if (cfgset == "gating32") g_gating32 = true;
     if (cfgset == "resolver96") g_resolver96 = true;
     // --kinds / --ids restrict the alphabet (development aid); default: all 72 tokens
